@@ -17,7 +17,7 @@ IMPORTS = ["PauLieVerif.Properties.C20", "PauLieVerif.Proofs.Closure"]
 def su_gens(rng, n, kind=None):
     """a generating set of su(2^n): random strings until the closure is everything, or a 2-local universal family,
     optionally obfuscated by contractions / extended by dependent products"""
-    kind = kind or rng.choice(["random", "random", "minimal", "obf"])
+    kind = kind or rng.choice(["random", "random", "minimal", "obf", "dup", "dup"])
     while True:
         k = rng.randint(2 * n + 1, 2 * n + 5)
         gs = list(dict.fromkeys(G.rs(rng, n) for _ in range(k)))
@@ -32,7 +32,26 @@ def su_gens(rng, n, kind=None):
                 gs = rest
     if kind == "obf":
         gs = G.obfuscate(rng, gs, 8)
+    if kind == "dup":
+        # the collection class does not de-duplicate what it is constructed from: repeat one or two members
+        for _ in range(rng.randint(1, 2)):
+            gs.insert(rng.randrange(len(gs) + 1), rng.choice(gs))
     return gs
+
+def already_optimal(rng, n, tries=400):
+    """generating sets (made minimal, then possibly with a repeated member) whose own anticommutation graph already has the
+    target number floor(0.706*pairs) of edges: the boundary where a search may stop before it starts"""
+    out = []
+    for _ in range(tries):
+        gs = su_gens(rng, n, "minimal")
+        if rng.random() < 0.7:
+            gs.insert(rng.randrange(len(gs) + 1), rng.choice(gs))
+        k = len(gs)
+        T = k * (k - 1) // 2
+        pairs = sum(1 for i in range(k) for j in range(i + 1, k) if O.anti(O.enc(gs[i]), O.enc(gs[j])))
+        if T >= 1 and pairs == (706 * T) // 1000:
+            out.append(gs)
+    return out
 
 def line_for(rng, n, nrnd=40):
     gs = su_gens(rng, n)
@@ -135,6 +154,10 @@ def build_streams(rng, tier):
         for s in range(8 if not th else 32):
             r2 = random.Random(s)
             seeds.append(G.line_of("optimise", gs, ",".join(str(r2.randint(0, 10 ** 6)) for _ in range(40))))
+    boundary = []
+    for n, tries in ((2, 300), (3, 300)) if not th else ((2, 1500), (3, 1500), (4, 300)):
+        for gs in already_optimal(rng, n, tries)[:60 if not th else 400]:
+            boundary.append(G.line_of("optimise", gs, ",".join(str(rng.randint(0, 10 ** 6)) for _ in range(40))))
     explore = []
     for n, cnt in ((2, 30), (3, 40)) if not th else ((2, 100), (3, 200), (4, 30)):
         explore += [G.line_of("explore", su_gens(rng, n)) for _ in range(cnt)]
@@ -145,13 +168,14 @@ def build_streams(rng, tier):
         Stream("corpus", corpus_lines(PID), IO.handle, **kw),
         Stream("su(2^n)-generating-sets", lines, IO.handle, **kw),
         Stream("seeds-of-the-tie-breaking", seeds, IO.handle, **kw),
+        Stream("inputs-already-at-the-target", boundary, IO.handle, **kw),
         Stream("all-random-choices(model)", explore, lambda l: run_model([l])[0], batch_oracle=explore_oracle, model=False,
                tag=lambda l, o: "explored", nontrivial=lambda l, o: ";" in o),
         Stream("target-number-of-pairs", edges, IO.handle, oracle=edges_oracle, nontrivial=lambda l, o: o != "-1"),
     ]
 
 RULE = ("generating sets of su(2^n) (random strings until the closure is all 4^n-1, made minimal / obfuscated by contractions), n=2..4 "
-        "(thorough 5); `randint` scripted from VERIF_SEED, 8 (thorough 32) different tie-breaking streams per input; returned set checked for "
+        "(thorough 5), with repeated members, and inputs whose own graph already has the target number of edges; `randint` scripted from VERIF_SEED, 8 (thorough 32) different tie-breaking streams per input; returned set checked for "
         "termination, no exception, distinctness, size in [2n+1, |input|] and closure equality (Lean-verified closure); the model explores "
         "EVERY random choice for n<=3 (thorough 4) and must find no stuck retry loop, no IndexError and only property-satisfying results")
 
